@@ -363,9 +363,9 @@ theorem preparedLarge_eq {W r : Nat} (ok : RadixOK W r (radixInfo W r)) (n : Nat
     have hinit : IsTower r (fmtChunkLen * (radixInfo W r).dpw) [(radixInfo W r).rpw ^ fmtChunkLen] := by
       refine ⟨?_, trivial⟩
       rw [ok.pow, ← pow_mul]; simp [Nat.mul_comm]
-    obtain ⟨hne, ht, hle⟩ := buildPowers_spec W n r _ (wordLen W n + 1) _ (by simp) hinit
+    obtain ⟨hne, ht, hle⟩ := buildPowers_spec W n r _ (bitLen n) _ (by simp) hinit
       (by intro p hp; simp at hp; subst hp; omega)
-    cases hb : buildPowers W n (wordLen W n + 1) [(radixInfo W r).rpw ^ fmtChunkLen] with
+    cases hb : buildPowers W n (bitLen n) [(radixInfo W r).rpw ^ fmtChunkLen] with
     | nil => exact absurd hb hne
     | cons p rest =>
       rw [hb] at ht hle
